@@ -205,7 +205,8 @@ Lemma add_file_cases : forall known last p m f d e l k, add_file known last p m 
   l_path (d_line l) = p /\ d_fp l = f /\
   (l_unique (d_line l) = false -> l_size (d_line l) <> 0 ->
      In (l_hash (d_line l)) known \/
-     exists dl, last_lookup p last = Some dl /\ l_hash (d_line dl) = l_hash (d_line l) /\ fp_eqb f (d_fp dl) = true).
+     exists dl, last_lookup p last = Some dl /\ l_hash (d_line dl) = l_hash (d_line l) /\ fp_eqb f (d_fp dl) = true /\
+                l_size (d_line dl) = l_size (d_line l)).
 Proof.
   intros known last p m f d e l k E. unfold add_file in E.
   destruct (N.eqb_spec (fsize d) 0) as [Hz|Hnz].
@@ -216,19 +217,21 @@ Proof.
             (k = known \/ (k = H d :: known /\ l_unique (d_line l) = true /\ l_hash (d_line l) = H d)) /\
             l_path (d_line l) = p /\ d_fp l = f /\
             (l_unique (d_line l) = false -> l_size (d_line l) <> 0 -> In (l_hash (d_line l)) known \/
-               exists dl, last_lookup p last = Some dl /\ l_hash (d_line dl) = l_hash (d_line l) /\ fp_eqb f (d_fp dl) = true)).
+               exists dl, last_lookup p last = Some dl /\ l_hash (d_line dl) = l_hash (d_line l) /\ fp_eqb f (d_fp dl) = true /\
+                          l_size (d_line dl) = l_size (d_line l))).
     { intros e0 l0 k0 E0. destruct (hmem (H d) known) eqn:Em; inversion E0; subst; cbn.
       - repeat split; auto. intros _ _. left. now apply hmem_In.
       - split; [right; auto|]. repeat split; auto. discriminate. }
     destruct (last_lookup p last) as [dl|] eqn:El; [|apply (Hby e l k); exact E].
-    destruct (fp_eqb f (d_fp dl) && (fsize d =? l_size (d_line dl))) eqn:Ef0; [|apply (Hby e l k); exact E]. apply andb_true_iff in Ef0 as [Ef _].
-    inversion E; subst. cbn. repeat split; auto. intros _ _. right. exists dl. auto.
+    destruct (fp_eqb f (d_fp dl) && (fsize d =? l_size (d_line dl))) eqn:Ef0; [|apply (Hby e l k); exact E]. apply andb_true_iff in Ef0 as [Ef Esz].
+    apply N.eqb_eq in Esz. inversion E; subst. cbn. repeat split; auto. intros _ _. right. exists dl. auto.
 Qed.
 
 Lemma run_items_known : forall ws known last es ls, run_items known last ws = (es, ls) ->
   forall l, In l ls -> l_unique (d_line l) = false -> l_size (d_line l) <> 0 ->
     In (l_hash (d_line l)) known \/ (exists l', In l' ls /\ l_unique (d_line l') = true /\ l_hash (d_line l') = l_hash (d_line l)) \/
-    (exists dl, last_lookup (l_path (d_line l)) last = Some dl /\ l_hash (d_line dl) = l_hash (d_line l) /\ fp_eqb (d_fp l) (d_fp dl) = true).
+    (exists dl, last_lookup (l_path (d_line l)) last = Some dl /\ l_hash (d_line dl) = l_hash (d_line l) /\ fp_eqb (d_fp l) (d_fp dl) = true /\
+                l_size (d_line dl) = l_size (d_line l)).
 Proof.
   induction ws as [|w ws IH]; intros known last es ls E; cbn [run_items] in E.
   - inversion E; subst. intros l [].
@@ -237,7 +240,7 @@ Proof.
     + destruct (add_file known last p m f d) as [[e l] k] eqn:Ea. destruct (run_items k last ws) as [es0 ls0] eqn:Er. inversion E; subst.
       destruct (add_file_cases _ _ _ _ _ _ _ _ _ Ea) as (Hk & Hp & Hf & Hext).
       intros l0 [<-|Hl0] Hu Hs.
-      * destruct (Hext Hu Hs) as [A|(dl & A & B & C)]; [now left|]. right. right. exists dl. rewrite Hp, Hf. auto.
+      * destruct (Hext Hu Hs) as [A|(dl & A & B & C & D)]; [now left|]. right. right. exists dl. rewrite Hp, Hf. auto.
       * destruct (IH _ _ _ _ Er l0 Hl0 Hu Hs) as [A|[(l' & A & B & C)|D]].
         -- destruct Hk as [->|(-> & Hku & Hkh)]; [now left|]. destruct A as [A|A]; [|now left].
            right. left. exists l. split; [now left|]. split; [exact Hku|]. congruence.
@@ -267,12 +270,10 @@ Proof. intros a b x (bk & l & H1 & H2) Hsub. exists bk, l. destruct H2 as (A & B
 
 (* one more run keeps the history well-formed (C02 at the level of contents, plus the shape facts) *)
 Theorem run_HOK : forall h name ws, HOK h -> WFws ws -> FpTruth (last_of (gs_of h)) ws ->
-  (forall p m f d dl, In (WFile p m f d) ws -> fsize d <> 0 -> last_lookup p (last_of (gs_of h)) = Some dl ->
-                      fp_eqb f (d_fp dl) = true -> l_size (d_line dl) <> 0) ->
   ~ In name (map (fun x => b_name (fst (fst x))) h) ->
   HOK (h ++ [(fst (run (gs_of h) name ws), snd (run (gs_of h) name ws), ws)]).
 Proof.
-  intros h name ws Hh Hwf Hft Hfs Hname. unfold run.
+  intros h name ws Hh Hwf Hft Hname. unfold run.
   pose proof (run_items_shape ws (known_of (gs_of h)) (last_of (gs_of h)) Hft (wf_nodup _ Hwf)) as Hshape.
   pose proof (run_items_known ws (known_of (gs_of h)) (last_of (gs_of h))) as Hknown.
   destruct (run_items (known_of (gs_of h)) (last_of (gs_of h)) ws) as [es ls] eqn:Er. cbn [fst snd].
@@ -290,14 +291,13 @@ Proof.
         apply in_map_iff in Hl as (dl & Edl & Hdl). destruct (Hlines dl Hdl) as (m0 & f0 & d0 & Hin0 & Hfp0 & Hh0 & Hs0 & Hne0).
         rewrite Edl in *. cbn [mk l_unique l_hash l_size l_path] in *. apply H_inj in Hh0. subst d0. apply Hne0. exact Hu.
       * intros l Hl Hu Hs. cbn [b_manifest bn] in Hl. apply in_map_iff in Hl as (dl & <- & Hdl).
-        destruct (Hknown dl Hdl Hu Hs) as [A|[(l' & A & B & C)|(dl0 & A & B & C)]].
+        destruct (Hknown dl Hdl Hu Hs) as [A|[(l' & A & B & C)|(dl0 & A & B & C & Dsz)]].
         -- apply known_of_In in A. eapply HasUnique_mono; [exact A|]. intros y Hy. apply in_or_app. left.
            unfold gs_of in Hy. rewrite map_map in Hy. exact Hy.
         -- exists bn, (d_line l'). split; [apply in_or_app; right; now left|]. split; [cbn [b_manifest bn]; apply in_map; auto|auto].
-        -- (* fingerprint hit: the previous record was non-empty, so its hash is already stored in the group *)
-           destruct (Hlines dl Hdl) as (m0 & f0 & d0 & Hin0 & Hfp0 & Hh0 & Hs0 & _).
-           assert (Hnz : l_size (d_line dl0) <> 0).
-           { apply (Hfs _ m0 f0 d0 dl0 Hin0); [rewrite <- Hs0; exact Hs | exact A | rewrite <- Hfp0; exact C]. }
+        -- (* fingerprint hit: the shortcut also demands equal sizes (repair of F6), so the previous record was non-empty and its hash
+              is already stored in the group *)
+           assert (Hnz : l_size (d_line dl0) <> 0) by (rewrite Dsz; exact Hs).
            unfold last_of, gs_of in A. rewrite <- map_rev in A. destruct (rev h) as [|[[bl dlsl] wsl] rh] eqn:Erh; [discriminate|].
            cbn [map fst snd] in A. assert (Eh : h = rev rh ++ [(bl, dlsl, wsl)]) by (rewrite <- (rev_involutive h), Erh; reflexivity).
            destruct (hk_each _ Hh (rev rh) bl dlsl wsl [] Eh) as (_ & Eman & _ & Hkn).
